@@ -33,6 +33,15 @@ EXPLANATION = (
     "Iterators (generator expressions, map / filter / zip / enumerate, itertools and functools pipelines) are evaluated lazily, item by item, as CPython does; "
     "small helper classes of the evaluated modules (callable objects, NamedTuple / dataclass records, Enum members) are instantiated and followed; what the "
     "interpreter has no model of is undecided, never an exception of the analysed code. "
+    "The convert_to_payload scenarios model dataclasses.Field.type as the annotation AS WRITTEN (a str under postponed evaluation, a generic whose argument "
+    "is still the str of a forward reference) and only typing.get_type_hints() as the resolved objects. Rule dataclass-installed-early enumerates every "
+    "reference of convert_to_payload in the library backwards through helpers, decorator wrappers, context managers, mixins and partial objects to the language "
+    "event that starts the path: conversion reachable only from an instance-construction hook (__new__ / __init__) of a payload class, and from no class-"
+    "definition-time event (__init_subclass__, __set_name__, metaclass, class decorator, exported function, module level), is a finding per payload class (a class "
+    "that has not been instantiated cannot decode); references that cannot be attributed are undecided. Rule default-literal: a constructor default that reaches the "
+    "generated source as repr() text without the evaluated code having restricted its type to builtin literals (isinstance / is None on the way from "
+    "inspect.signature to the template) is a finding; where the code does ask for the type of a default, the cases 'not a literal' / 'none of the literal types "
+    "asked for' are evaluated too, and a rejection of such a default is not reported by the template rules. "
     "When a private builder no longer has its reviewed name / parameter list, its rule evaluates what vp_compile installs instead. Code outside the evaluated fragment is exit 2 (undecided), never a verdict. The family of "
     "definitions is finite (up to 5 formats / 19 names); equality of bytes for concrete instances is not decided."
 )
@@ -909,9 +918,44 @@ class Interp:
             return "function"
         return None
 
+    _LITERAL_TYPES = ("int", "str", "bytes", "bool", "float", "NoneType", "tuple")
+
+    def default_isa(self, v: Sym, t) -> bool:
+        """isinstance(<opaque constructor default>, t).  Any object may be a default, so the code's question splits the definitions
+        the property quantifies over: first 'is it a value of a builtin literal type' (case key "lit"), then - only if the code goes on
+        asking - which one (case keys "isa:<type>", at most one of them true; bool is an int).  In the case 'not a literal' the default is
+        an instance of `object` only (an object of a class the evaluated code does not name)."""
+        w = self.w
+        if isinstance(t, Builtin) and t.name == "object":
+            return True
+        if w.assumed.get(("none", v)) is True:
+            known = "NoneType"
+        else:
+            lit = w.assumed.get(("lit", v))
+            if lit is None:
+                raise NeedCase(("lit", v), f"the evaluated code depends on the type of the default value {v!r}")
+            if not lit:
+                return False
+            known = next((k[0][4:] for k, val in w.assumed.items() if val is True and k[1] == v and k[0].startswith("isa:")), None)
+        if not isinstance(t, Builtin) or t.name not in self._LITERAL_TYPES:
+            return False
+        if known is not None:
+            return known == t.name or (known, t.name) == ("bool", "int")
+        if t.name == "NoneType":
+            none = self.default_case("none", v)
+            if none is None:
+                raise Und(f"whether the default value {v!r} is None")
+            return none
+        ans = w.assumed.get(("isa:" + t.name, v))
+        if ans is None:
+            raise NeedCase(("isa:" + t.name, v), f"the evaluated code depends on whether the default value {v!r} is a {t.name}")
+        return ans
+
     def is_instance(self, v, t) -> bool:
         if isinstance(t, tuple):
             return any(self.is_instance(v, x) for x in t)
+        if isinstance(v, Sym) and v.kind == "default" and self.w.forking:
+            return self.default_isa(v, t)
         tn = self.type_name(v)
         if tn is None:
             raise Und(f"type of the opaque value {v!r} is not known")
@@ -1699,7 +1743,7 @@ class Interp:
                 if tn is None:
                     raise Und("type() of an opaque value")
                 if isinstance(tn, str):
-                    if tn in _TYPE_NAMES:
+                    if tn in _TYPE_NAMES or tn == "NoneType":
                         return Builtin(tn)
                     raise Und(f"type() of a {tn}")
                 return tn
@@ -3409,8 +3453,24 @@ def forked(sc: Scenario, thunk):
     def described(msg, case):
         if msg and case:
             what = {("truth", True): "is truthy", ("truth", False): "is falsy (0, False, b'', '', None ...)",
-                    ("none", True): "is None", ("none", False): "is not None"}
-            msg += " [case: " + ", ".join(f"the default of n{k[1].key} {what[(k[0], v)]}" for k, v in case.items()) + "]"
+                    ("none", True): "is None", ("none", False): "is not None", ("lit", True): "is a value of a builtin literal type",
+                    ("lit", False): "is an object of another class"}
+            msg += " [case: " + ", ".join(f"the default of n{k[1].key} " + what.get((k[0], v), f"{'is' if v else 'is not'} a {k[0][4:]}")
+                                          for k, v in case.items()) + "]"
+        return msg
+
+    thunk0 = thunk
+
+    def thunk():
+        # a case in which a default is NOT a value of a builtin literal type, or of none of the literal types the code asked for, lies
+        # outside the family these rules enumerate: whether such defaults survive the generated source is rule default-literal's
+        # question, and a clean rejection of them is not reported as a disagreement of the enumerated definitions
+        msg = thunk0()
+        if msg and any(k[0] == "lit" and (val is False or not any(k2[1] == k[1] and v2 is True and (k2[0].startswith("isa:") or k2[0] == "none")
+                                                                for k2, v2 in w.assumed.items()))
+                       for k, val in w.assumed.items()):
+            w.rejected_exotic = getattr(w, "rejected_exotic", 0) + 1
+            return None
         return msg
 
     def run(policy):
@@ -3483,6 +3543,66 @@ def _builder(repo, name: str, params: tuple):
     return fi, fi
 
 
+class _LiteralGuard:
+    """Which constructor defaults reach generated source as repr() text, and whether the evaluated code had restricted the default to
+    a builtin literal type on the way (the case under evaluation answers `isinstance(default, ..)` / `default is None`)."""
+
+    def __init__(self) -> None:
+        self.guarded = 0
+        self.unguarded: list = []
+        self.failed_test = False      # rendered in a case in which the code had asked for the type and the answer was 'no literal'
+
+    def see(self, sc: Scenario, p: Conv) -> None:
+        a = sc.w.assumed
+        if a.get(("lit", p.value)) is True or a.get(("none", p.value)) is True:
+            self.guarded += 1
+        else:
+            self.unguarded.append(p)
+            self.failed_test = self.failed_test or a.get(("lit", p.value)) is False
+
+
+def _check_default_literal(ctx: Ctx, fi: FuncInfo, direct, vpc: FuncInfo, defs: list, lit: _LiteralGuard) -> None:
+    """repr(default) pasted into the generated `def __init__(self, .., name=<text>)` denotes the default only when the text evaluates back
+    to an equal object in the generator's globals: int / bool / None / str / bytes / finite float and tuples of those.  The plain
+    definition accepts ANY object as a default, so the generator must either test the type of the default before it renders it or bind
+    the object itself (no text).  The finding is reported at the reviewed place of the template whatever the builder is called now."""
+    where = f"{LP}:_compile_init"
+    construct = "repr(default) pasted into the generated __init__ signature"
+    unguarded = list(lit.unguarded)
+    if unguarded and direct is not None:
+        # the restriction may sit where the defaults are collected: evaluate what vp_compile hands to exec()
+        sc2 = Scenario(ctx.repo)
+        lit2 = _LiteralGuard()
+
+        def via_vp_compile(d: Defn):
+            cls = sc2.make_class(d)
+            mark = len(sc2.w.exec_texts)
+            try:
+                sc2.it.call(sc2.it.func_of(vpc), [cls])
+            except PyExc:
+                pass
+            for text in sc2.w.exec_texts[mark:]:
+                for p in (text.parts if isinstance(text, SStr) else ()):
+                    if isinstance(p, Conv) and isinstance(p.value, Sym) and p.value.kind == "default" and p.how == "r":
+                        lit2.see(sc2, p)
+            return None
+        for d in [d for d in defs if d.defaults][:6]:
+            decided(vpc.where, lambda d=d: forked(sc2, lambda: via_vp_compile(d)), sc2.w)
+        if not lit2.unguarded and lit2.guarded:
+            unguarded = []
+        lit = lit2 if unguarded else lit
+        ctx.functions.add(vpc.where)
+    if unguarded and lit.failed_test:
+        construct += " although a type test on the default failed"
+    ctx.check(not unguarded, "default-literal", where, construct,
+              "constructor defaults reach the generated source as repr() text only after their type was restricted to builtin literals "
+              f"({lit.guarded} guarded renderings)" if not unguarded else construct,
+              f"{fi.qualname} pastes repr(default) into the source of the generated __init__ for ANY default object (no isinstance test on the way from "
+              "inspect.signature(..).parameters to the template, no fallback that binds the object instead of its text): float('inf') / nan give "
+              "NameError in vp_compile, dataclasses.field(default_factory=..) and enum members give a SyntaxError, objects with an evaluable but "
+              "unequal repr give another default - the plain definition works with all of them")
+
+
 # ===================================================================================================== rules
 def rule_init_template(ctx: Ctx) -> None:
     repo = ctx.repo
@@ -3493,6 +3613,7 @@ def rule_init_template(ctx: Ctx) -> None:
     conv_ok = conv_bad = 0
     bad_conv = None
     sc = Scenario(repo)
+    lit = _LiteralGuard()
 
     def one(d: Defn):
         nonlocal conv_ok, conv_bad, bad_conv
@@ -3505,6 +3626,7 @@ def rule_init_template(ctx: Ctx) -> None:
                 if isinstance(p, Conv) and isinstance(p.value, Sym) and p.value.kind == "default":
                     if p.how == "r":
                         conv_ok += 1
+                        lit.see(sc, p)
                     else:
                         conv_bad += 1
                         bad_conv = bad_conv or p
@@ -3541,6 +3663,7 @@ def rule_init_template(ctx: Ctx) -> None:
         ctx.check(True, "repr-in-codegen", fi, fi.node, "_compile_init: default values are rendered with !r in the generated signature")
     ctx.floor("repr-in-codegen", sum(1 for d in defs if d.defaults), 1)
     ctx.extra["defaults_rendered_with_repr"] = conv_ok
+    _check_default_literal(ctx, fi, direct, vpc, defs, lit)
     ctx.check(bad is None or bad_conv is not None and "NameError" in bad[1], "template-init", fi, fi.node,
               f"generated __init__: names in order, `name=<default>` exactly for the names with a default, Payload.__init__(self) then one setter per name "
               f"({len(defs)} abstract definitions x positional / keyword / omitted arguments)",
@@ -3883,7 +4006,7 @@ class DataclassWorld(Scenario):
         self.counter = 0
 
     def dataclass(self, label: str, n_own: int, parent: ClsObj | None = None, classvar: bool = True, kw_only: tuple = (),
-                  no_init: tuple = ()) -> ClsObj:
+                  no_init: tuple = (), declared: dict | None = None) -> ClsObj:
         """kw_only / no_init: positions (among the own fields) of fields declared field(kw_only=True) / field(init=False).  The
         dataclass-generated __init__ (what @dataclass installs before the first conversion) takes the init fields, keyword-only
         ones after all others: its parameter order is NOT the definition order as soon as a keyword-only field is not last."""
@@ -3895,7 +4018,12 @@ class DataclassWorld(Scenario):
             i = self.counter
             self.counter += 1
             ann = self.anns[i % len(self.anns)]
-            f = Rec("field", name=N(i), type=ann, default=missing, default_factory=missing, kind="field", init=j not in no_init,
+            raw = ann
+            if declared and j in declared:
+                # Field.type is the annotation AS WRITTEN (a str under postponed evaluation, a generic whose argument is still the str of a
+                # forward reference); typing.get_type_hints() is what resolves it to the objects type_map understands
+                raw, ann = declared[j]
+            f = Rec("field", name=N(i), type=raw, default=missing, default_factory=missing, kind="field", init=j not in no_init,
                     kw_only=j in kw_only, repr=True, compare=True, hash=None, metadata={})
             fields.append(f)
             hints[N(i)] = ann
@@ -3916,7 +4044,7 @@ class DataclassWorld(Scenario):
 
     def check_converted(self, cls: ClsObj, what: str):
         names = [f.fields["name"] for f in cls.meta["fields"]]
-        fmts = [_spec_type_map(self, f.fields["type"]) for f in cls.meta["fields"]]
+        fmts = [_spec_type_map(self, cls.meta["hints"][f.fields["name"]]) for f in cls.meta["fields"]]
         got_n, got_f = cls.attrs.get("names"), cls.attrs.get("format_list")
         for k, v in (("names", got_n), ("format_list", got_f)):
             if v is not None and not isinstance(v, (list, tuple)):
@@ -4287,7 +4415,22 @@ def rule_type_map(ctx: Ctx) -> None:  # noqa: C901, PLR0912, PLR0915
             return msg
         i = dw.dataclass("I", 3, classvar=False, no_init=(2,))
         it.call(conv, [i])
-        return dw.check_converted(i, "dataclass with a field(init=False) field (not a constructor parameter, still a field of the definition)")
+        msg = dw.check_converted(i, "dataclass with a field(init=False) field (not a constructor parameter, still a field of the definition)")
+        if msg:
+            return msg
+        # what a Field records is the annotation as written; only the resolved type hints name the objects type_map understands
+        nested = next(a for desc, a, _ in table if desc == "list[<payload class>]")
+        written = Rec("generic", __origin__=Builtin("list"), __args__=("Item",))
+        f = dw.dataclass("F", 3, classvar=False, declared={1: (written, nested)})
+        it.call(conv, [f])
+        msg = dw.check_converted(f, "dataclass (module without postponed annotations) with a field annotated list[\"Item\"]: the forward reference inside "
+                                    "the generic is a str in Field.type and the payload class in typing.get_type_hints()")
+        if msg:
+            return msg
+        scalar = next(a for desc, a, _ in table if desc == "int")
+        g = dw.dataclass("G", 2, classvar=False, declared={0: ("int", scalar), 1: ("list[Item]", nested)})
+        it.call(conv, [g])
+        return dw.check_converted(g, "dataclass of a module with postponed annotations (every Field.type is a str)")
 
     def guarded():
         try:
@@ -4320,6 +4463,373 @@ def rule_type_map(ctx: Ctx) -> None:  # noqa: C901, PLR0912, PLR0915
               "inherited from a parent dataclass payload): the subclass keeps the parent's wire format and drops its own fields")
 
 
+# ----------------------------------------------------------------------------- when is a dataclass payload converted
+_DEFINITION_HOOKS = ("__init_subclass__", "__set_name__")
+_CONSTRUCTION_HOOKS = ("__new__", "__init__")
+_FUNC_NODES = (ast.FunctionDef, ast.AsyncFunctionDef)
+
+
+def _eval_scope(node: ast.AST):
+    """The def / lambda / class whose BODY evaluates `node` (None = module level).  Decorators, parameter defaults, annotations, base
+    classes and class keywords are evaluated by the scope around the def / class they belong to."""
+    from ..model import parent
+    child, p = node, parent(node)
+    while p is not None:
+        if isinstance(p, (*_FUNC_NODES, ast.ClassDef)) and any(child is x for x in p.body):
+            return p
+        if isinstance(p, ast.Lambda) and child is p.body:
+            return p
+        child, p = p, parent(p)
+    return None
+
+
+def _is_metaclass(ci: ClassInfo) -> bool:
+    return "type" in ci.all_base_names() or any(b.rsplit(".", 1)[-1] in ("ABCMeta", "EnumMeta") for b in ci.all_base_names())
+
+
+def _metaclass_of(ctx: Ctx, ci: ClassInfo) -> list:
+    out = []
+    for c in ci.mro():
+        for k in c.node.keywords:
+            if k.arg == "metaclass":
+                out.append(ctx.repo.resolve_class_expr(c.module, k.value) or norm(k.value))
+    return out
+
+
+class _ConversionPaths:
+    """Backward call paths from one function (convert_to_payload) to the language-level events that start them.  Every reference of
+    the function - and of every private helper / wrapper / method on the way - is enumerated over the whole library; a reference whose
+    use cannot be attributed to such an event (stored, passed on, returned to an unknown caller) makes the enumeration undecided."""
+
+    def __init__(self, ctx: Ctx, target: FuncInfo) -> None:
+        self.ctx, self.repo, self.target = ctx, ctx.repo, target
+        self.early: list = []        # (description, ClassInfo the hook belongs to | None = applies to every class)
+        self.hooks: list = []        # (ClassInfo, FuncInfo, description): construction hooks of payload classes
+        self.seen: set = set()
+        self.steps: list = []
+        self._names: dict = {}
+
+    def undecided(self, why: str):
+        return AnalysisError(f"undecided: {self.target.where}: the callers of {self.target.name} cannot be enumerated: {why}")
+
+    # ---- references
+    def name_refs(self, name: str) -> list:
+        if name not in self._names:
+            out = []
+            for m in self.repo.modules.values():
+                for n in ast.walk(m.tree):
+                    if (isinstance(n, ast.Name) and n.id == name) or (isinstance(n, ast.Attribute) and n.attr == name):
+                        out.append((m, n))
+            self._names[name] = out
+        return self._names[name]
+
+    def shadowed(self, n: ast.Name, upto) -> bool:
+        """a def between the reference and `upto` (None = module) binds the name itself (parameter, assignment, nested def)"""
+        s = _eval_scope(n)
+        while s is not None and s is not upto:
+            if isinstance(s, _FUNC_NODES):
+                a = s.args
+                if n.id in [x.arg for x in a.posonlyargs + a.args + a.kwonlyargs] + [x.arg for x in (a.vararg, a.kwarg) if x]:
+                    return True
+                for x in walk_no_nested(s):
+                    if (isinstance(x, ast.Name) and x.id == n.id and isinstance(x.ctx, ast.Store)) \
+                            or (isinstance(x, (*_FUNC_NODES, ast.ClassDef)) and x is not s and x.name == n.id):
+                        return True
+            s = _eval_scope(s)
+        return False
+
+    def refs_of_function(self, t: FuncInfo) -> list:
+        """reference nodes that denote function t"""
+        outer = _eval_scope(t.node)
+        out = []
+        if isinstance(outer, (*_FUNC_NODES, ast.Lambda)):                     # nested def: visible in the enclosing function only
+            for n in ast.walk(outer):
+                if isinstance(n, ast.Name) and n.id == t.name and not isinstance(n.ctx, ast.Store) and not self.shadowed(n, outer) \
+                        and not any(a is t.node for a in self._ancestors(n)):
+                    out.append((t.module, n))
+            if any(isinstance(n, ast.Name) and n.id == t.name and isinstance(n.ctx, ast.Store) for n in ast.walk(outer)):
+                raise self.undecided(f"the name of the nested function {t.qualname} is rebound")
+            return out
+        if isinstance(outer, ast.ClassDef):                                    # method: X.name
+            owners = [c for c in self.repo.all_classes() if t.name in c.methods]
+            family = {id(c.node) for c in [t.cls, *t.cls.all_subclasses()]} if t.cls else set()
+            foreign = [c for c in owners if id(c.node) not in family and not (t.cls and c in t.cls.mro())]
+            for m, n in self.name_refs(t.name):
+                if isinstance(n, ast.Name):
+                    if _eval_scope(n) is outer and not isinstance(n.ctx, ast.Store):   # used by name inside the class body
+                        out.append((m, n))
+                    continue
+                if isinstance(n.ctx, ast.Store):
+                    raise self.undecided(f"attribute {t.name} is assigned at {m.relpath}:{n.lineno}")
+                if not foreign:
+                    out.append((m, n))
+                    continue
+                f = self.repo.function_of(n)
+                base = n.value
+                if isinstance(base, ast.Name) and base.id in ("self", "cls") and f is not None and f.cls is not None:
+                    if id(f.cls.node) in family or t.cls in f.cls.mro():
+                        out.append((m, n))
+                    continue
+                ci = self.repo.resolve_class_expr(m, base)
+                if ci is not None:
+                    if id(ci.node) in family:
+                        out.append((m, n))
+                    continue
+                raise self.undecided(f"`{norm(n)}` at {m.relpath}:{n.lineno} may or may not be {t.qualname}")
+            return out
+        seen_ids = set()
+        for m in self.repo.modules.values():                                   # imported under another name / inside a function
+            for x in ast.walk(m.tree):
+                if not isinstance(x, ast.ImportFrom) or (x.module is not None and x.module.split(".")[-1] != t.module.name.split(".")[-1]):
+                    continue
+                for al in x.names:
+                    if al.name != t.name:
+                        continue
+                    local, scope = al.asname or al.name, _eval_scope(x)
+                    if scope is None and local == t.name:
+                        continue                                               # the plain module-level import: resolved by name below
+                    for n in ast.walk(scope if scope is not None else m.tree):
+                        if isinstance(n, ast.Name) and n.id == local and id(n) not in seen_ids:
+                            if isinstance(n.ctx, ast.Store):
+                                raise self.undecided(f"`{local}` (an import of {t.name}) is rebound in {m.relpath}")
+                            if not self.shadowed(n, scope):
+                                seen_ids.add(id(n))
+                                out.append((m, n))
+        for m, n in self.name_refs(t.name):                                    # module-level function
+            if id(n) in seen_ids:
+                continue
+            if isinstance(n, ast.Name):
+                if isinstance(n.ctx, ast.Store):
+                    if m is t.module and _eval_scope(n) is None:
+                        raise self.undecided(f"{t.name} is rebound at module level")
+                    continue
+                r = self.repo.resolve_name(m, n.id)
+                if isinstance(r, FuncInfo) and r.node is t.node and not self.shadowed(n, None):
+                    out.append((m, n))
+            elif isinstance(n.value, ast.Name):
+                r = self.repo.resolve_name(m, n.value.id)
+                if isinstance(r, tuple) and r[0] == "module" and r[1] is t.module:
+                    if isinstance(n.ctx, ast.Store):
+                        raise self.undecided(f"{t.name} is replaced at {m.relpath}:{n.lineno}")
+                    out.append((m, n))
+        return out
+
+    @staticmethod
+    def _ancestors(n):
+        from ..model import parent
+        p = parent(n)
+        while p is not None:
+            yield p
+            p = parent(p)
+
+    # ---- uses
+    def role(self, n: ast.AST):
+        """('call', Call) | ('classdeco', ClassDef) | ('funcdeco', FunctionDef, applied: bool) | ('return',) | ('other', text)"""
+        from ..model import parent
+        p = parent(n)
+        if isinstance(p, ast.Call) and p.args and p.args[0] is n and (chain(p.func) or "").split(".")[-1] == "partial":
+            # functools.partial(f, ..): called on the spot, or kept in a local of the same scope that is only ever called there
+            pp = parent(p)
+            if isinstance(pp, ast.Call) and pp.func is p:
+                return ("call", pp)
+            scope = _eval_scope(p)
+            if isinstance(pp, ast.Assign) and len(pp.targets) == 1 and isinstance(pp.targets[0], ast.Name) and isinstance(scope, _FUNC_NODES):
+                local = pp.targets[0].id
+                uses = [x for x in ast.walk(scope) if isinstance(x, ast.Name) and x.id == local and x is not pp.targets[0]]
+                if uses and all(isinstance(x.ctx, ast.Load) and isinstance(parent(x), ast.Call) and parent(x).func is x and _eval_scope(x) is scope
+                                for x in uses):
+                    return ("call", p)
+            return ("other", norm(pp)[:60] if pp is not None else "?")
+        if isinstance(p, ast.Call) and p.func is n:
+            pp = parent(p)
+            if isinstance(pp, ast.ClassDef) and any(p is d for d in pp.decorator_list):
+                return ("classdeco", pp)
+            if isinstance(pp, _FUNC_NODES) and any(p is d for d in pp.decorator_list):
+                return ("funcdeco", pp, True)
+            return ("call", p)
+        if isinstance(p, ast.ClassDef) and any(n is d for d in p.decorator_list):
+            return ("classdeco", p)
+        if isinstance(p, _FUNC_NODES) and any(n is d for d in p.decorator_list):
+            return ("funcdeco", p, False)
+        if isinstance(p, ast.Return) and p.value is n:
+            return ("return",)
+        return ("other", norm(p)[:60] if p is not None else "?")
+
+    def applications(self, fn: FuncInfo, why: str) -> list:
+        """FunctionDefs g such that the name g is bound to fn(g) (fn used as a decorator, directly or as the result of its factory)."""
+        out = []
+        for m, n in self.refs_of_function(fn):
+            r = self.role(n)
+            if r[0] == "funcdeco" and not r[2]:
+                out.append(r[1])
+            elif r[0] == "return":
+                outer = _eval_scope(fn.node)
+                if not isinstance(outer, _FUNC_NODES):
+                    raise self.undecided(f"{why}: `{fn.qualname}` is returned outside a factory")
+                for m2, n2 in self.refs_of_function(self.repo.info(outer)):
+                    r2 = self.role(n2)
+                    if r2[0] == "funcdeco" and r2[2]:
+                        out.append(r2[1])
+                    else:
+                        raise self.undecided(f"{why}: the decorator factory `{outer.name}` is used as `{r2[-1] if r2[0] == 'other' else r2[0]}`")
+            else:
+                raise self.undecided(f"{why}: `{fn.qualname}` is used as {r[0]} ({r[-1] if r[0] == 'other' else ''}) at {m.relpath}:{n.lineno}")
+        return out
+
+    # ---- classification
+    def follow(self, t: FuncInfo, via: str) -> None:
+        """t runs the conversion when it is called: who calls t?"""
+        if id(t.node) in self.seen:
+            return
+        self.seen.add(id(t.node))
+        if len(self.seen) > 40:
+            raise self.undecided("more than 40 functions on the way")
+        self.ctx.functions.add(t.where)
+        refs = self.refs_of_function(t)
+        if not refs and t is not self.target:
+            self.unreferenced(t, via)
+        for m, n in refs:
+            r = self.role(n)
+            at = f"{m.relpath}:{getattr(n, 'lineno', 0)}"
+            if r[0] == "call":
+                self.executed_in(_eval_scope(r[1]), m, f"{via} <- call at {at}")
+            elif r[0] == "classdeco":
+                self.early.append((f"class decorator on {r[1].name} ({at})", None))
+            elif r[0] == "return":
+                # t is the wrapper a private decorator returns: the decorated names are bound to it
+                outer = _eval_scope(t.node)
+                if not isinstance(outer, _FUNC_NODES):
+                    raise self.undecided(f"`{t.qualname}` is returned at {at}")
+                for g in self.applications(self.repo.info(outer), f"wrapper {t.qualname}"):
+                    self.executed_in(g, m, f"{via} <- wrapper installed by @{outer.name}", as_function=True)
+            elif r[0] == "funcdeco":
+                raise self.undecided(f"`{t.qualname}` decorates a function at {at}")
+            else:
+                raise self.undecided(f"`{t.qualname}` is not called but used in `{r[1]}` at {at}")
+
+    def unreferenced(self, t: FuncInfo, via: str) -> None:
+        exported = self.exported(t)
+        if exported and t.cls is None and t.params():
+            self.early.append((f"public function {t.name} of {t.module.relpath} (exported: usable as class decorator / registration at definition time)", None))
+            return
+        raise self.undecided(f"`{t.qualname}` ({via}) has no caller in the library and is not exported")
+
+    def exported(self, t: FuncInfo) -> bool:
+        names = None
+        for st in t.module.tree.body:
+            if isinstance(st, (ast.Assign, ast.AnnAssign)) and any(isinstance(x, ast.Name) and x.id == "__all__" for x in _flat_targets(st)):
+                v = st.value
+                if isinstance(v, (ast.List, ast.Tuple)) and all(isinstance(const_value(e), str) for e in v.elts):
+                    names = [const_value(e) for e in v.elts]
+                else:
+                    raise self.undecided("__all__ is not a literal list")
+        if names is None:
+            return not t.name.startswith("_")
+        return t.name in names
+
+    def executed_in(self, scope, m: Module, via: str, as_function: bool = False) -> None:
+        """the conversion runs whenever the body of `scope` runs"""
+        if scope is None:
+            self.early.append((f"module level of {m.relpath} ({via})", None))
+            return
+        if isinstance(scope, ast.ClassDef):
+            self.early.append((f"body of class {scope.name} ({via})", None))
+            return
+        if isinstance(scope, ast.Lambda):
+            raise self.undecided(f"called from a lambda ({via})")
+        g = self.repo.info(scope)
+        outer = _eval_scope(scope)
+        if not isinstance(outer, ast.ClassDef) or g.cls is None:
+            self.follow(g, via)           # module-level function or nested def: a helper on the way
+            return
+        k, name = g.cls, g.name
+        payload = k.is_subclass_of("Serializable")
+        if name in _DEFINITION_HOOKS:
+            self.early.append((f"{k.name}.{name} ({via})", k))
+        elif _is_metaclass(k):
+            if name == "__call__":
+                raise self.undecided(f"metaclass {k.name}.__call__ ({via})")
+            self.early.append((f"metaclass {k.name}.{name} ({via})", ("meta", k)))
+        elif name in _CONSTRUCTION_HOOKS and (payload or any(c.is_subclass_of("Serializable") for c in k.all_subclasses())):
+            self.hooks.append((k, g, via))          # of a payload class, or of a mixin that payload classes inherit the hook from
+        elif name in (*_CONSTRUCTION_HOOKS, "__enter__", "__exit__") and not payload:
+            self.instantiations(k, name, via)
+        elif name.startswith("__") and name.endswith("__"):
+            raise self.undecided(f"{k.name}.{name} is invoked implicitly ({via})")
+        else:
+            self.follow(g, via)
+
+    def instantiations(self, k: ClassInfo, name: str, via: str) -> None:
+        """a private helper class whose __init__ / __enter__ / __exit__ runs the conversion: where it is instantiated (and, for a context
+        manager, entered in the same `with` item)"""
+        from ..model import parent
+        if id(k.node) in self.seen:
+            return
+        self.seen.add(id(k.node))
+        found = 0
+        for m, n in self.name_refs(k.name):
+            if isinstance(n.ctx, ast.Store):
+                continue
+            ci = self.repo.resolve_class_expr(m, n)
+            if ci is None or ci.node is not k.node:
+                continue
+            p = parent(n)
+            if isinstance(p, ast.ClassDef) and any(n is b for b in p.bases):
+                raise self.undecided(f"helper class {k.name} is subclassed")
+            if not (isinstance(p, ast.Call) and p.func is n):
+                if isinstance(p, (ast.arg, ast.AnnAssign, ast.Subscript, ast.BinOp)) or any(isinstance(a, ast.arguments) for a in self._ancestors(n)):
+                    continue        # annotation
+                raise self.undecided(f"helper class {k.name} is used as a value at {m.relpath}:{n.lineno}")
+            if name in ("__enter__", "__exit__") and not isinstance(parent(p), ast.withitem):
+                raise self.undecided(f"context manager {k.name} is created outside a with item at {m.relpath}:{n.lineno}")
+            found += 1
+            self.executed_in(_eval_scope(p), m, f"{via} <- {k.name}(..) at {m.relpath}:{n.lineno}")
+        if not found:
+            raise self.undecided(f"helper class {k.name} is never instantiated")
+
+    def applies_to(self, early_owner, k: ClassInfo) -> bool:
+        if early_owner is None:
+            return True
+        if isinstance(early_owner, tuple):
+            metas = _metaclass_of(self.ctx, k)
+            return any(isinstance(x, ClassInfo) and early_owner[1] in x.mro() for x in metas)
+        return early_owner in k.mro()
+
+
+def rule_dataclass_installed_early(ctx: Ctx) -> None:
+    """names / format_list and the compiled methods exist on a dataclass payload class only after convert_to_payload(cls): the class can
+    encode AND decode like its plain definition only from the moment that has run.  The plain definition decodes as soon as the class
+    statement has been executed, so some path to convert_to_payload must start at class-definition time."""
+    repo = ctx.repo
+    cp = repo.func(PD, "convert_to_payload")
+    paths = _ConversionPaths(ctx, cp)
+    paths.follow(cp, "convert_to_payload")
+    if not paths.early and not paths.hooks:
+        raise AnalysisError(f"undecided: {cp.where}: no caller of convert_to_payload was found")
+    # one verdict per payload class whose construction converts: the top-most payload class of each hook
+    reported = set()
+    for k, g, via in paths.hooks:
+        tops = [c for c in [k, *k.all_subclasses()] if c.lookup(g.name) is not None and c.lookup(g.name).node is g.node
+                and c.is_subclass_of("Serializable")]
+        tops = [c for c in tops if not any(b is not c and b in tops for b in c.mro())]
+        for c in tops:
+            if id(c.node) in reported:
+                continue
+            reported.add(id(c.node))
+            early = [d for d, owner in paths.early if paths.applies_to(owner, c)]
+            ctx.check(bool(early), "dataclass-installed-early", f"{c.module.relpath}:{c.name}.{g.name}",
+                      "convert_to_payload(cls) runs only when an instance is constructed",
+                      f"{c.name}: conversion is reachable from class-definition time ({'; '.join(early)[:200]})",
+                      f"every call path to convert_to_payload for {c.name} subclasses starts in the instance-construction hook {g.qualname} ({via}); there is none "
+                      "from class-definition time (__init_subclass__, class decorator, metaclass, exported registration function, module level). Until a first "
+                      "instance has been constructed in the process the dataclass still inherits names = [] / format_list = [] and the interpreted methods: "
+                      "Serializer.unpack_serializable reads zero fields and from_unpack_list() raises TypeError, while the plain definition decodes the same bytes")
+    if not paths.hooks:
+        ctx.check(True, "dataclass-installed-early", cp, cp.node, "convert_to_payload is reached from class-definition time only: "
+                  + "; ".join(d for d, _ in paths.early)[:300])
+    ctx.extra["conversion_paths"] = {"definition_time": [d for d, _ in paths.early], "construction_hooks": [f"{k.name}.{g.name} ({via})" for k, g, via in paths.hooks]}
+
+
 def rule_library_defaults(ctx: Ctx) -> None:
     """Visibility of the repr finding's reach: custom __init__ defaults in shipped vp_compile'd payloads."""
     repo = ctx.repo
@@ -4344,6 +4854,7 @@ def run(ctx: Ctx) -> None:
     rule_interpreter(ctx)
     rule_vp_compile(ctx)
     rule_type_map(ctx)
+    rule_dataclass_installed_early(ctx)
     rule_library_defaults(ctx)
     ctx.assume("byte equality of concrete instances follows from equal pack lists / constructor arguments plus C02's packer symmetry; it is not executed")
     ctx.assume("compiled from_unpack_list skips fix_unpack_ for None values while the interpreter does not: wire values are never None")
@@ -4351,6 +4862,10 @@ def run(ctx: Ctx) -> None:
                "code does not single out; symbolic strings built differently are different strings")
     ctx.assume("code that asks about a constructor default's VALUE (truth, None-ness) is evaluated for every combination of answers while that takes at most "
                f"{_MAX_CASES} evaluations per definition, otherwise for all-yes / all-no / each single deviation")
+    ctx.assume("where the evaluated code asks for the TYPE of a constructor default, the template rules only require agreement for defaults of the builtin literal "
+               "types the code accepts; what happens to other defaults is rule default-literal's question (today: known finding)")
+    ctx.assume("a function listed in __all__ (or public in a module without __all__) that passes its parameter to convert_to_payload counts as a definition-time "
+               "path (class decorator / registration); whether users apply it is outside the library")
     ctx.assume("abstract definitions are finite: at most 5 formats / 19 names, hooks / defaults in 6 presence patterns; integer constants above 8 in the "
                "evaluated code make the rule undecided instead of silently out of scope")
 
@@ -4398,6 +4913,34 @@ WITNESSES = [
                        "                            if name in {field.name for field in dt_fields}]\n"}]},
     {"name": "list of old-style payloads no longer nests (element test narrowed to VariablePayload)", "file": PD, "rule": "type-map",
      "old": "        if issubclass(fmt, Serializable):\n            return [fmt]", "new": "        if issubclass(fmt, VariablePayload):\n            return [fmt]"},
+    {"name": "formats from Field.type (the annotation as written) instead of the resolved type hints", "file": PD, "rule": "type-map",
+     "old": "    type_hints = get_type_hints(dataclass_type)\n", "new": "    type_hints = {field.name: field.type for field in dt_fields}\n"},
+    {"name": "repaired twin: exported class decorator converts at definition time", "kind": "twin", "rule": "dataclass-installed-early",
+     "edits": [{"file": PD, "old": "class DataClassPayload(VariablePayload):\n",
+                "new": "def dataclass_payload(cls: type) -> type:\n    convert_to_payload(cls, getattr(cls, \"msg_id\", None))\n    return cls\n\n\n"
+                       "class DataClassPayload(VariablePayload):\n"},
+               {"file": PD, "old": "__all__ = [\"DataClassPayload\", \"type_from_format\"]",
+                "new": "__all__ = [\"DataClassPayload\", \"dataclass_payload\", \"type_from_format\"]"}]},
+    {"name": "repaired twin: __init_subclass__ converts at definition time", "kind": "twin", "rule": "dataclass-installed-early",
+     "edits": [{"file": PD, "old": "        out = super().__new__(cls)\n        convert_to_payload(cls)\n        return out\n",
+                "new": "        out = super().__new__(cls)\n        convert_to_payload(cls)\n        return out\n\n"
+                       "    def __init_subclass__(cls, **kwargs) -> None:\n        super().__init_subclass__(**kwargs)\n        convert_to_payload(cls)\n"},
+               {"file": PD, "old": "        out = super().__new__(cls)\n        convert_to_payload(cls, msg_id=cls.msg_id)\n        return out\n",
+                "new": "        out = super().__new__(cls)\n        convert_to_payload(cls, msg_id=cls.msg_id)\n        return out\n\n"
+                       "    def __init_subclass__(cls, **kwargs) -> None:\n        super().__init_subclass__(**kwargs)\n        convert_to_payload(cls, msg_id=cls.msg_id)\n"}]},
+    {"name": "conversion moved to another construction hook (__init__): still instance time", "file": PD, "rule": "dataclass-installed-early",
+     "old": "        out = super().__new__(cls)\n        convert_to_payload(cls)\n        return out\n",
+     "new": "        return super().__new__(cls)\n\n    def __init__(self, *args: Any, **kwargs) -> None:  # noqa: ANN401\n"
+            "        convert_to_payload(type(self))\n        super().__init__(*args, **kwargs)\n"},
+    {"name": "repaired twin: defaults restricted to literal types before they are rendered", "kind": "twin", "rule": "default-literal", "file": LP,
+     "old": "    arg_list = \", \".join((f\"{name}={defaults.get(name)!r}\" if name in defaults else name) for name in names)\n",
+     "new": "    for default in defaults.values():\n        if not isinstance(default, (int, str, bytes, bool, type(None))):\n"
+            "            raise TypeError(\"default value cannot be compiled\")\n"
+            "    arg_list = \", \".join((f\"{name}={defaults.get(name)!r}\" if name in defaults else name) for name in names)\n"},
+    {"name": "type test on the default that does not restrict what is rendered", "file": LP, "rule": "default-literal",
+     "old": "    arg_list = \", \".join((f\"{name}={defaults.get(name)!r}\" if name in defaults else name) for name in names)\n",
+     "new": "    unusual = [default for default in defaults.values() if not isinstance(default, (int, str, bytes, bool, type(None)))]\n"
+            "    arg_list = \", \".join((f\"{name}={defaults.get(name)!r}\" if name in defaults else name) for name in names)\n"},
     {"name": "dataclass formats from sorted hints", "file": PD, "rule": "type-map",
      "old": "    dataclass_type.format_list = [type_map(type_hints[field.name]) for field in  # type: ignore[attr-defined]\n                                  dt_fields]",
      "new": "    dataclass_type.format_list = [type_map(type_hints[name]) for name in  # type: ignore[attr-defined]\n                                  sorted(type_hints)]"},
